@@ -72,6 +72,8 @@ struct PoolInner {
     name: String,
     free: Mutex<Vec<bool>>,
     busy: AtomicUsize,
+    /// jobs handed to the pool that have not got a worker yet
+    queued: AtomicUsize,
 }
 
 impl PoolInner {
@@ -83,6 +85,7 @@ impl PoolInner {
             name,
             free: Mutex::new(vec![true; n]),
             busy: AtomicUsize::new(0),
+            queued: AtomicUsize::new(0),
         })
     }
 
@@ -178,6 +181,7 @@ fn then(body: Box<dyn FnOnce() + Send + 'static>, signal: impl FnOnce() + Send +
 fn job_body(pool: Arc<PoolInner>, body: impl FnOnce()) {
     stats::JOBS.fetch_add(1, Ordering::Relaxed);
     let s = acquire(&pool);
+    pool.queued.fetch_sub(1, Ordering::SeqCst);
     set_worker(Some((pool.clone(), s)));
     body();
     // the slot may have changed while the job waited for children
@@ -297,6 +301,13 @@ impl ThreadPool {
         self.install(|| join(a, b))
     }
 
+    pub fn yield_now(&self) -> Option<Yield> {
+        match worker() {
+            Some((p, _)) if p.id == self.inner.id => yield_now(),
+            _ => None,
+        }
+    }
+
     pub fn scope<'scope, OP, R>(&self, op: OP) -> R
     where
         OP: FnOnce(&Scope<'scope>) -> R + Send,
@@ -316,6 +327,7 @@ impl ThreadPool {
             return;
         }
         let pool = self.inner.clone();
+        pool.queued.fetch_add(1, Ordering::SeqCst);
         detsim::spawn(
             "spawn-job",
             Box::new(move || {
@@ -362,6 +374,7 @@ where
         let result = SendPtr(Arc::as_ptr(&result) as *mut Mutex<Option<std::thread::Result<R>>>);
         let done = done.clone();
         let pool = pool.clone();
+        pool.queued.fetch_add(1, Ordering::SeqCst);
         let body: Box<dyn FnOnce() + Send + '_> = Box::new(move || {
             let result = result;
             job_body(pool, || {
@@ -381,6 +394,38 @@ where
         Ok(v) => v,
         Err(p) => resume_unwind(p),
     }
+}
+
+/// `rayon::yield_now` / `yield_local`: the worker lets other work of its pool go first. Model: if a
+/// job of the pool is waiting for a worker, the caller gives up its worker slot for one scheduler
+/// point (the job may take it) and reports `Executed`; otherwise a scheduler point and `Idle`.
+/// `None` outside a pool. (Unlike rayon the job that got the slot is not necessarily finished
+/// when the call returns: callers must not rely on that, and a correct caller waits on a latch.)
+#[derive(Debug, Clone, Copy, PartialEq, Eq)]
+pub enum Yield {
+    Executed,
+    Idle,
+}
+
+pub fn yield_now() -> Option<Yield> {
+    let (pool, slot) = worker()?;
+    if !par_mode() {
+        return Some(Yield::Idle);
+    }
+    if pool.queued.load(Ordering::SeqCst) > 0 {
+        pool.release(slot);
+        detsim::yield_point();
+        let s = acquire(&pool);
+        set_worker(Some((pool, s)));
+        Some(Yield::Executed)
+    } else {
+        detsim::yield_point();
+        Some(Yield::Idle)
+    }
+}
+
+pub fn yield_local() -> Option<Yield> {
+    yield_now()
 }
 
 pub fn current_num_threads() -> usize {
@@ -419,6 +464,7 @@ where
         let rbp = SendPtr(&rb as *const _ as *mut Mutex<Option<std::thread::Result<RB>>>);
         let done = done.clone();
         let pool = pool.clone();
+        pool.queued.fetch_add(1, Ordering::SeqCst);
         let body: Box<dyn FnOnce() + Send + '_> = Box::new(move || {
             let rbp = rbp;
             job_body(pool, || {
@@ -468,6 +514,7 @@ impl<'scope> Scope<'scope> {
             Some(p) => p.clone(),
         };
         self.left.fetch_add(1, Ordering::SeqCst);
+        pool.queued.fetch_add(1, Ordering::SeqCst);
         let left = self.left.clone();
         let me = SendPtr(self as *const Scope<'scope> as *mut Scope<'scope>);
         let job: Box<dyn FnOnce() + Send + '_> = Box::new(move || {
@@ -587,6 +634,7 @@ fn for_each_jobs<T: Send, F: Fn(T) + Sync + Send>(items: Vec<T>, f: F) {
         for it in items {
             let left = left.clone();
             let pool = pool.clone();
+            pool.queued.fetch_add(1, Ordering::SeqCst);
             let body: Box<dyn FnOnce() + Send + '_> = Box::new(move || {
                 job_body(pool, || {
                     if let Err(p) = catch_unwind(AssertUnwindSafe(|| fref(it))) {
@@ -607,6 +655,19 @@ fn for_each_jobs<T: Send, F: Fn(T) + Sync + Send>(items: Vec<T>, f: F) {
         let k = detsim::choose(0x50414e, ps.len());
         resume_unwind(ps.swap_remove(k));
     }
+}
+
+/// One pool job per item (or per leaf of the halving rule), results in item order.
+fn par_map<T: Send, R: Send, F: Fn(T) -> R + Sync + Send>(items: Vec<T>, min: usize, max: usize, f: F) -> Vec<R> {
+    let slots: Vec<Mutex<Option<R>>> = (0..items.len()).map(|_| Mutex::new(None)).collect();
+    {
+        let sref = &slots;
+        for_each_items(items.into_iter().enumerate().collect(), min, max, move |(i, it): (usize, T)| {
+            let r = f(it);
+            *sref[i].lock().unwrap() = Some(r);
+        });
+    }
+    slots.into_iter().map(|m| m.into_inner().unwrap().expect("par_map: an item produced no result")).collect()
 }
 
 pub mod iter {
@@ -645,6 +706,54 @@ pub mod iter {
 
         fn count(self) -> usize {
             self.into_parts().0.len()
+        }
+
+        /// `map`, `filter_map`, `filter`, `flat_map_iter`: evaluated *eagerly* - one pool job per
+        /// item (or leaf), results kept in order. Rayon fuses adaptors into the consumer's jobs;
+        /// a chain `a.map(f).for_each(g)` therefore has a barrier between the f phase and the g
+        /// phase here that rayon does not have (fewer interleavings, never more). Before a
+        /// `collect` the two are the same.
+        fn map<F, R>(self, f: F) -> Items<R>
+        where
+            F: Fn(Self::Item) -> R + Sync + Send,
+            R: Send,
+        {
+            let (items, min, max) = self.into_parts();
+            Items { v: super::par_map(items, min, max, f), min: 1, max: usize::MAX }
+        }
+
+        fn filter_map<F, R>(self, f: F) -> Items<R>
+        where
+            F: Fn(Self::Item) -> Option<R> + Sync + Send,
+            R: Send,
+        {
+            let (items, min, max) = self.into_parts();
+            Items { v: super::par_map(items, min, max, f).into_iter().flatten().collect(), min: 1, max: usize::MAX }
+        }
+
+        fn filter<F>(self, f: F) -> Items<Self::Item>
+        where
+            F: Fn(&Self::Item) -> bool + Sync + Send,
+        {
+            self.filter_map(move |x| if f(&x) { Some(x) } else { None })
+        }
+
+        fn flat_map_iter<F, U>(self, f: F) -> Items<U::Item>
+        where
+            F: Fn(Self::Item) -> U + Sync + Send,
+            U: IntoIterator,
+            U::Item: Send,
+        {
+            let (items, min, max) = self.into_parts();
+            let parts: Vec<Vec<U::Item>> = super::par_map(items, min, max, move |x| f(x).into_iter().collect::<Vec<_>>());
+            Items { v: parts.into_iter().flatten().collect(), min: 1, max: usize::MAX }
+        }
+
+        fn collect<C>(self) -> C
+        where
+            C: std::iter::FromIterator<Self::Item>,
+        {
+            self.into_parts().0.into_iter().collect()
         }
     }
 
